@@ -28,3 +28,361 @@ package httpd
 //@     requires h.Config.SharedSecret != ""
 //@   call inner
 //@     requires (requireAuthentication && admin) ==> (authed && arg2 != nil)
+
+// ---------------------------------------------------------------- per-handler authorization guards
+// With authentication on, a write handler reads the request body (and so stores anything) only after the
+// write authorizer accepted THIS user for THE database the points are written to.
+//@ func (*Handler).serveWrite
+//@   stable httpd.Handler.Config config.Config.AuthEnabled
+//@   ghost authz int = 0
+//@   call .AuthorizeWrite
+//@     requires [authorize_the_target_database] arg1 == database && user != nil
+//@     set authz = (ret0 == nil ? 1 : 2)
+//@   call GetStreamContext
+//@     requires [no_body_read_before_authorization] h.Config.AuthEnabled ==> (user != nil && authz == 1)
+//@   store unmarshalWork.Db
+//@     requires [write_goes_to_the_authorized_database] val == database
+
+// The query authorization helper answers nil only when authentication is off or the query authorizer accepted
+// exactly the (user, query, database) it was given.
+//@ func (*Handler).checkAuthorization
+//@   stable httpd.Handler.Config config.Config.AuthEnabled
+//@   ghost ok bool = false
+//@   call .AuthorizeQuery
+//@     requires [authorize_what_was_asked] arg0 == user && arg1 == query && arg2 == database
+//@     set ok = (ret0 == nil)
+//@   ensures [nil_only_if_authorized] result == nil && h.Config.AuthEnabled ==> ok
+
+// Every handler that executes a query does so only after checkAuthorization returned nil for THAT query object and
+// the database the execution options name.
+//@ func (*Handler).serveQuery
+//@   ghost authok bool = false
+//@   ghost authq Ptr = nil
+//@   ghost authdb string = ""
+//@   call (*Handler).checkAuthorization
+//@     requires [authorize_this_user] arg0 == user
+//@     set authok = (ret0 == nil)
+//@     set authq = arg1
+//@     set authdb = arg2
+//@   call .ExecuteQuery
+//@     requires [query_authorized_before_execution] authok && arg0 == authq && arg1.Database == authdb
+
+// ---------------------------------------------------------------- log-store API (repaired by a fix: commit)
+// The three authorization helpers answer "go on" only when authentication is off or the authenticated user holds
+// what the kind of request needs: administrator (catalogue changes), write authorization for the repository,
+// read privilege on the repository.
+//@ func (*Handler).authorizeLogStoreAdmin
+//@   stable httpd.Handler.Config config.Config.AuthEnabled
+//@   ghost admin bool = false
+//@   call .AuthorizeUnrestricted
+//@     requires recv == user
+//@     set admin = ret0
+//@   ensures [admin_only] result && h.Config.AuthEnabled ==> user != nil && admin
+
+//@ func (*Handler).authorizeLogStoreRead
+//@   stable httpd.Handler.Config config.Config.AuthEnabled
+//@   ghost rd bool = false
+//@   call .AuthorizeDatabase
+//@     requires [read_privilege_on_this_repository] recv == user && arg0 == 1 && arg1 == repository
+//@     set rd = ret0
+//@   ensures [read_privilege_needed] result && h.Config.AuthEnabled ==> user != nil && rd
+
+//@ func (*Handler).checkWriteAuthorization
+//@   stable httpd.Handler.Config config.Config.AuthEnabled
+//@   ghost wr bool = false
+//@   call .AuthorizeWrite
+//@     requires [write_to_this_database] user != nil && arg1 == database
+//@     set wr = (ret0 == nil)
+//@   ensures [nil_only_if_authorized] result == nil && h.Config.AuthEnabled ==> user != nil && wr
+
+// Every log-store handler that changes the catalogue does so only after authorizeLogStoreAdmin said yes for the
+// request's user.
+//@ func (*Handler).serveCreateRepository
+//@   ghost ok bool = false
+//@   call (*Handler).authorizeLogStoreAdmin
+//@     requires arg1 == user
+//@     set ok = ret0
+//@   call .CreateDatabase
+//@     requires [admin_checked_first] ok
+//@ func (*Handler).serveDeleteRepository
+//@   ghost ok bool = false
+//@   call (*Handler).authorizeLogStoreAdmin
+//@     requires arg1 == user
+//@     set ok = ret0
+//@   call .MarkDatabaseDelete
+//@     requires [admin_checked_first] ok
+//@ func (*Handler).serveCreateLogstream
+//@   ghost ok bool = false
+//@   call (*Handler).authorizeLogStoreAdmin
+//@     requires arg1 == user
+//@     set ok = ret0
+//@   call .CreateRetentionPolicy
+//@     requires [admin_checked_first] ok
+//@   call .CreateMeasurement
+//@     requires [admin_checked_first] ok
+//@ func (*Handler).serveDeleteLogstream
+//@   ghost ok bool = false
+//@   call (*Handler).authorizeLogStoreAdmin
+//@     requires arg1 == user
+//@     set ok = ret0
+//@   call .MarkRetentionPolicyDelete
+//@     requires [admin_checked_first] ok
+//@ func (*Handler).serveUpdateLogstream
+//@   ghost ok bool = false
+//@   call (*Handler).authorizeLogStoreAdmin
+//@     requires arg1 == user
+//@     set ok = ret0
+//@   call .UpdateMeasurement
+//@     requires [admin_checked_first] ok
+//@ func (*Handler).serveRecallData
+//@   ghost ok bool = false
+//@   call (*Handler).authorizeLogStoreAdmin
+//@     requires arg1 == user
+//@     set ok = ret0
+//@   call .RevertRetentionPolicyDelete
+//@     requires [admin_checked_first] ok
+//@ func (*Handler).serveCreateStreamTask
+//@   ghost ok bool = false
+//@   call (*Handler).authorizeLogStoreAdmin
+//@     requires arg1 == user
+//@     set ok = ret0
+//@   call .CreateStreamMeasurement
+//@     requires [admin_checked_first] ok
+//@   call .CreateStreamPolicy
+//@     requires [admin_checked_first] ok
+//@ func (*Handler).serveDeleteStreamTask
+//@   ghost ok bool = false
+//@   call (*Handler).authorizeLogStoreAdmin
+//@     requires arg1 == user
+//@     set ok = ret0
+//@   call .DropStream
+//@     requires [admin_checked_first] ok
+//@ func (*Handler).servePromCreateTSDB
+//@   ghost ok bool = false
+//@   call (*Handler).authorizeLogStoreAdmin
+//@     requires arg1 == user
+//@     set ok = ret0
+//@   call .CreateDatabase
+//@     requires [admin_checked_first] ok
+
+// Records are written only after the write authorizer accepted the user for the repository they go to.
+//@ func (*Handler).serveRecord
+//@   stable httpd.LogWriteRequest.repository
+//@   ghost ok bool = false
+//@   ghost db string = ""
+//@   call (*Handler).checkWriteAuthorization
+//@     requires arg1 == user
+//@     set ok = (ret0 == nil)
+//@     set db = arg2
+//@   call .RetryWriteLogRecord
+//@     requires [write_authorized_first] ok && db == req.repository
+//@ func (*Handler).serveUpload
+//@   ghost ok bool = false
+//@   ghost db string = ""
+//@   call (*Handler).checkWriteAuthorization
+//@     requires arg1 == user
+//@     set ok = (ret0 == nil)
+//@     set db = arg2
+//@   call .RetryWriteLogRecord
+//@     requires [write_authorized_first] ok && db == repository
+
+// Catalogue and data of a repository are read only after the read check said yes for that repository.
+//@ func (*Handler).serveShowRepository
+//@   ghost ok bool = false
+//@   call (*Handler).authorizeLogStoreRead
+//@     requires arg1 == user && arg2 == repository
+//@     set ok = ret0
+//@   call .Measurements
+//@     requires [read_checked_first] ok && arg0 == repository
+//@ func (*Handler).serveListLogstream
+//@   ghost ok bool = false
+//@   call (*Handler).authorizeLogStoreRead
+//@     requires arg1 == user && arg2 == repository
+//@     set ok = ret0
+//@   call .Database
+//@     requires [read_checked_first] ok && arg0 == repository
+//@ func (*Handler).serveShowLogstream
+//@   ghost ok bool = false
+//@   call (*Handler).authorizeLogStoreRead
+//@     requires arg1 == user && arg2 == repository
+//@     set ok = ret0
+//@   call .RetentionPolicy
+//@     requires [read_checked_first] ok && arg0 == repository
+//@ func (*Handler).serveGetConsumeCursors
+//@   ghost ok bool = false
+//@   call (*Handler).authorizeLogStoreRead
+//@     requires arg1 == user && arg2 == repository
+//@     set ok = ret0
+//@   call .Database
+//@     requires [read_checked_first] ok && arg0 == repository
+//@ func (*Handler).serveConsumeLogs
+//@   ghost ok bool = false
+//@   call (*Handler).authorizeLogStoreRead
+//@     requires arg1 == user && arg2 == repository
+//@     set ok = ret0
+//@   call (*Handler).getConsumeInfo
+//@     requires [read_checked_first] ok
+
+// ---------------------------------------------------------------- remaining query / write entry points
+//@ func (*Handler).HandleQuery
+//@   ghost authok bool = false
+//@   ghost authq Ptr = nil
+//@   ghost authdb string = ""
+//@   call (*Handler).checkAuthorization
+//@     requires [authorize_this_user] arg0 == user
+//@     set authok = (ret0 == nil)
+//@     set authq = arg1
+//@     set authdb = arg2
+//@   call .ExecuteQuery
+//@     requires [query_authorized_before_execution] authok && arg0 == authq && arg1.Database == authdb
+//@ func (*Handler).serveLogQuery
+//@   stable httpd.measurementInfo.database
+//@   ghost authok bool = false
+//@   ghost authq Ptr = nil
+//@   ghost authdb string = ""
+//@   call (*Handler).checkAuthorization
+//@     requires [authorize_this_user] arg0 == user
+//@     set authok = (ret0 == nil)
+//@     set authq = arg1
+//@     set authdb = arg2
+//@   call .ExecuteQuery
+//@     requires [query_authorized_before_execution] authok && arg0 == authq && arg1.Database == authdb
+//@ func getMetrics
+//@   ghost authok bool = false
+//@   ghost authq Ptr = nil
+//@   ghost authdb string = ""
+//@   call (*Handler).checkAuthorization
+//@     requires [authorize_this_user] arg0 == user
+//@     set authok = (ret0 == nil)
+//@     set authq = arg1
+//@     set authdb = arg2
+//@   call .ExecuteQuery
+//@     requires [query_authorized_before_execution] authok && arg0 == authq && arg1.Database == authdb
+//@ func (*Handler).execQuery
+//@   ghost authok bool = false
+//@   ghost authq Ptr = nil
+//@   ghost authdb string = ""
+//@   call (*Handler).checkAuthorization
+//@     requires [authorize_this_user] arg0 == user
+//@     set authok = (ret0 == nil)
+//@     set authq = arg1
+//@     set authdb = arg2
+//@   call .ExecuteQuery
+//@     requires [query_authorized_before_execution] authok && arg0 == authq && arg1.Database == authdb
+//@ func (*Handler).servePromBaseMetaQuery
+//@   ghost authok bool = false
+//@   ghost authq Ptr = nil
+//@   ghost authdb string = ""
+//@   call (*Handler).checkAuthorization
+//@     requires [authorize_this_user] arg0 == user
+//@     set authok = (ret0 == nil)
+//@     set authq = arg1
+//@     set authdb = arg2
+//@   call .ExecuteQuery
+//@     requires [query_authorized_before_execution] authok && arg0 == authq && arg1.Database == authdb
+
+// Prometheus remote read authorizes the query directly.
+//@ func (*Handler).servePromReadBase
+//@   stable httpd.Handler.Config config.Config.AuthEnabled
+//@   ghost authok bool = false
+//@   ghost authq Ptr = nil
+//@   ghost authdb string = ""
+//@   call .AuthorizeQuery
+//@     requires [authorize_this_user] arg0 == user
+//@     set authok = (ret0 == nil)
+//@     set authq = arg1
+//@     set authdb = arg2
+//@   call .ExecuteQuery
+//@     requires [query_authorized_before_execution] h.Config.AuthEnabled ==> (user != nil && authok && arg0 == authq && arg1.Database == authdb)
+
+// Prometheus remote write, fence endpoints and OTLP ingestion: nothing is parsed or stored before the write
+// authorizer accepted the user for the target database.
+//@ func (*Handler).servePromWriteBase
+//@   stable httpd.Handler.Config config.Config.AuthEnabled
+//@   ghost authz int = 0
+//@   call .AuthorizeWrite
+//@     requires [authorize_the_target_database] arg1 == db && user != nil
+//@     set authz = (ret0 == nil ? 1 : 2)
+//@   call Parse
+//@     requires [no_body_read_before_authorization] h.Config.AuthEnabled ==> (user != nil && authz == 1)
+//@   call (*Handler).servePromWriteMetaData
+//@     requires [no_body_read_before_authorization] (h.Config.AuthEnabled ==> (user != nil && authz == 1)) && arg2 == db
+//@ func (*Handler).batchFenceMatch
+//@   stable httpd.Handler.Config config.Config.AuthEnabled
+//@   ghost authz int = 0
+//@   call .AuthorizeWrite
+//@     requires [authorize_the_target_database] arg1 == database && user != nil
+//@     set authz = (ret0 == nil ? 1 : 2)
+//@   call batchFenceMatch
+//@     requires [authorized_first] h.Config.AuthEnabled ==> (user != nil && authz == 1)
+//@ func (*Handler).fenceDelete
+//@   stable httpd.Handler.Config config.Config.AuthEnabled
+//@   ghost authz int = 0
+//@   call .AuthorizeWrite
+//@     requires [authorize_the_target_database] arg1 == database && user != nil
+//@     set authz = (ret0 == nil ? 1 : 2)
+//@   call .DeleteFenceByID
+//@     requires [authorized_first] h.Config.AuthEnabled ==> (user != nil && authz == 1)
+//@ func (*Handler).serveOTLP
+//@   ghost ok bool = false
+//@   ghost db string = ""
+//@   call (*Handler).checkWriteAuthorization
+//@     requires arg1 == user
+//@     set ok = (ret0 == nil)
+//@     set db = arg2
+//@   ensures [body_handed_out_only_if_authorized] result2 == nil ==> ok && result1 == db
+//@ func (*Handler).handleOtlpWrite
+//@   ghost ok bool = false
+//@   ghost db string = ""
+//@   call (*Handler).serveOTLP
+//@     requires arg2 == user
+//@     set ok = (ret2 == nil)
+//@     set db = ret1
+//@   call GetOtelContext
+//@     requires [authorized_first] ok
+//@   store OtelContext.Database
+//@     requires [write_goes_to_the_authorized_database] val == db
+
+// System control and backup endpoints: administrators only.
+//@ func (*Handler).checkAuth
+//@   stable httpd.Handler.Config config.Config.AuthEnabled
+//@   ghost admin bool = false
+//@   call .AuthorizeUnrestricted
+//@     requires recv == user
+//@     set admin = ret0
+//@   ensures [admin_only] result && h.Config.AuthEnabled ==> user != nil && admin
+//@ func (*Handler).serveSysCtrl
+//@   stable httpd.Handler.Config config.Config.AuthEnabled
+//@   ghost admin bool = false
+//@   call .AuthorizeUnrestricted
+//@     requires recv == user
+//@     set admin = ret0
+//@   call (*Handler).serveDebug
+//@     requires [admin_only] h.Config.AuthEnabled ==> (user != nil && admin)
+//@ func (*Handler).serveBackupRun
+//@   ghost ok bool = false
+//@   call (*Handler).checkAuth
+//@     requires arg2 == user
+//@     set ok = ret0
+//@   call (*Handler).serveBackup
+//@     requires [admin_checked_first] ok
+//@ func (*Handler).serveBackupAbort
+//@   ghost ok bool = false
+//@   call (*Handler).checkAuth
+//@     requires arg2 == user
+//@     set ok = ret0
+//@   call (*Handler).serveBackup
+//@     requires [admin_checked_first] ok
+//@ func (*Handler).serveBackupStatus
+//@   ghost ok bool = false
+//@   call (*Handler).checkAuth
+//@     requires arg2 == user
+//@     set ok = ret0
+//@   call (*Handler).serveBackup
+//@     requires [admin_checked_first] ok
+
+// The route table wraps every handler that takes a user in the authentication wrapper, configured from the
+// server's AuthEnabled setting, and registers exactly the wrapped chain.
+//@ func (*Handler).AddRoutes
+//@   call authenticate
+//@     requires [authentication_follows_config] arg1 == h && arg2 == h.Config.AuthEnabled
